@@ -1,16 +1,24 @@
 #!/bin/sh
 # usage: tools/seedregress.sh [parallelism] [dir-glob]
 # Sensitivity regression: applies every recorded seeded change (seeded/*/patch.diff) to a
-# scratch copy of /repo HEAD and runs the quick check of the change's own property against
-# it (VERIF_REPO). Every line must read "caught"; "MISSED" means a check lost sensitivity.
+# scratch copy of /repo HEAD and runs a quick check against it (VERIF_REPO): the check of the
+# change's own property when meta.json lists it under detected_by_quick_checks, otherwise the
+# first check listed there. Every line must read "caught"; "MISSED" means a check lost
+# sensitivity. A patch that no longer applies (the lines were rewritten by a later fix commit)
+# is reported as not applicable.
 PAR=${1:-4}; GLOB=${2:-*}
 cd "$(dirname "$0")/.."
 ls -d seeded/$GLOB | xargs -P "$PAR" -I{} sh -c '
-  d={}; id=$(basename $d | cut -c1-3)
+  d={}; own=$(basename $d | cut -c1-3)
+  id=$(python3 -c "
+import json,sys
+m=json.load(open(\"$d/meta.json\"))
+det=m.get(\"detected_by_quick_checks\") or [\"$own\"]
+print(\"$own\" if \"$own\" in det else det[0])")
   w=$(mktemp -d /tmp/seedreg-XXXXXX)
   rsync -a --exclude .git /repo/ $w/
   if ! (cd $w && git apply --whitespace=nowarn '"$PWD"'/$d/patch.diff 2>/dev/null || patch -p1 -s < '"$PWD"'/$d/patch.diff >/dev/null 2>&1); then echo "$d: not applicable (patch does not apply to this tree)"; rm -rf $w; exit 0; fi
   out=$(VERIF_REPO=$w ./check $id quick 2>&1); rc=$?
   rm -rf $w
-  if [ $rc -eq 1 ]; then echo "$d: caught"; else echo "$d: MISSED rc=$rc $(echo "$out" | tail -1 | cut -c1-120)"; fi
+  if [ $rc -eq 1 ]; then echo "$d: caught by $id"; else echo "$d: MISSED by $id rc=$rc $(echo "$out" | tail -1 | cut -c1-120)"; fi
 '
